@@ -99,8 +99,9 @@ structure World where
   nStr : Nat
   snaps : List Snap
 
-def World.init : World :=
-  { n := 3, row := fun _ _ => 0, nRow := 0, T := fun _ => 0, P := fun _ => 0, nTc := 0,
+/-- the empty universe over `n` chemicals -/
+def World.init (n : Nat) : World :=
+  { n := n, row := fun _ _ => 0, nRow := 0, T := fun _ => 0, P := fun _ => 0, nTc := 0,
     view := fun _ => default, nView := 0, ipr := fun _ => [], nImol := 0, cache := fun _ => [], nCache := 0,
     str := fun _ => default, nStr := 0, snaps := [] }
 
@@ -551,6 +552,8 @@ inductive Op where
   | wT (k : Nat) (x : Rat) | wP (k : Nat) (x : Rat)
   | wvT (h : Nat) (x : Rat) | wvP (h : Nat) (x : Rat)
   | vPhase (h : Nat) (p : Ph)
+  | hPhases (h : Nat) (ps : List Ph)       -- `handle.phases = ps` on a phase view
+  | hAccessor (h : Nat)                    -- `handle.vle` / `.lle` / `.sle` on a phase view
   | save (k : Nat)
   | restore (k : Nat) (idx : Nat)
   | unlink (k : Nat)
@@ -600,6 +603,16 @@ def World.body (w : World) : Op → Except Err World
     -- `handle.phase = p`: the phase of a view is a `LockedPhase`
     if h < w.nView then (if (w.view h).phase == p then .ok w else .error .attributeError)
     else .error .indexError
+  | .hPhases h ps =>
+    -- a phase view is a single-phase stream whose phase is locked: it accepts its own label and refuses
+    -- everything else (with patch C12-10 also a multi-phase target, which used to detach the view)
+    if h < w.nView then
+      match phaseTuple ps with
+      | [] => .error .valueError
+      | [q] => if (w.view h).phase == q then .ok w else .error .attributeError
+      | _ => .error .attributeError
+    else .error .indexError
+  | .hAccessor h => if h < w.nView then .error .attributeError else .error .indexError
   | .save k => .ok (w.save k)
   | .restore k idx => w.restore k idx
   | .unlink k => w.unlink k
@@ -627,6 +640,22 @@ def World.run (w : World) : List Op → World
 def Op.isConversion : Op → Bool
   | .setPhases .. | .setPhase .. | .reduce _ | .asStream _ | .vle _ | .lle _ | .sle _ => true
   | _ => false
+
+/-- the operation is inside the model: the model does not refuse it as `outOfModel` (linking single-phase or
+proxied streams, `_reset_thermo` of a proxied stream, in-place phase growth of an indexer whose rows are linked
+elsewhere or under a cached case-alias key, `copy_like`/`mix_from` between row-sharing streams of different
+packages).  A refused operation is a no-op of `World.apply`; the real code executes it. -/
+def World.accepts (w : World) (op : Op) : Bool :=
+  match w.step op with
+  | .error .outOfModel => false
+  | _ => true
+
+/-- every operation of the history was inside the model when it was applied -/
+def World.inModelB (w : World) : List Op → Bool
+  | [] => true
+  | op :: ops => w.accepts op && (w.apply op).inModelB ops
+
+def World.InModel (w : World) (ops : List Op) : Prop := w.inModelB ops = true
 
 def Op.isProxy : Op → Bool
   | .proxy _ => true
